@@ -191,6 +191,36 @@ pub fn worker<W: World>(
     0
 }
 
+/// In-process batch for the Miri tier (also runs natively). Output protocol on stdout:
+/// `RUN <i>` before each run, `FOUND <json Found>` per oracle violation, `DONE <runs> <steps>`.
+pub fn miri_batch<W: World>(prop: &str, seed: u64, from: u64, to: u64, sweep: bool, stride: u64, offset: u64) -> i32 {
+    install_quiet_panic_hook();
+    let mut ctx = Ctx::new(prop, Tier::Quick);
+    for run in from..to {
+        if stride > 1 && run % stride != offset % stride {
+            continue;
+        }
+        println!("RUN {run}");
+        let case = if sweep {
+            match W::sweep_case(run) {
+                Some(c) => c,
+                None => continue,
+            }
+        } else {
+            gen_case::<W>(seed, prop, Tier::Quick, run)
+        };
+        if std::env::args().any(|a| a == "--gen-only") {
+            continue;
+        }
+        if let Err(v) = run_case::<W>(&case, &mut ctx) {
+            let f = Found { no_minimise: false, run, world: format!("miri:{}", W::NAME), profile: "miri".into(), case: serde_json::to_value(&case).unwrap(), violation: v };
+            println!("FOUND {}", serde_json::to_string(&f).unwrap());
+        }
+    }
+    println!("DONE {} {}", ctx.cov.runs, ctx.cov.steps);
+    0
+}
+
 #[derive(Default)]
 pub struct StageResult {
     pub world: String,
@@ -541,10 +571,12 @@ fn exec_in_child(world: &str, prop: &str, case: &Value, scratch: &Path, exe: &Pa
 
 pub fn minimise_found(f: &Found, prop: &str, tier: Tier, scratch: &Path, exe: &Path) -> (Value, Violation, usize, usize) {
     let crashy = f.violation.class == "process-crash" || f.violation.class == "process-hang";
-    let max_exec: usize = if crashy { 120 } else { 2000 };
-    let deadline = Instant::now() + std::time::Duration::from_secs(if crashy { 60 } else { 20 });
+    let is_miri = f.world.starts_with("miri:");
+    let max_exec: usize = if is_miri { 24 } else if crashy { 120 } else { 2000 };
+    let deadline = Instant::now() + std::time::Duration::from_secs(if is_miri { 150 } else if crashy { 60 } else { 20 });
     let world = f.world.clone();
-    with_world!(world.as_str(), W => {
+    let bare = world.strip_prefix("miri:").unwrap_or(&world).to_string();
+    with_world!(bare.as_str(), W => {
         let case: <W as World>::Case = match serde_json::from_value(f.case.clone()) {
             Ok(c) => c,
             Err(_) => return (f.case.clone(), f.violation.clone(), 0, 0),
@@ -557,7 +589,9 @@ pub fn minimise_found(f: &Found, prop: &str, tier: Tier, scratch: &Path, exe: &P
                 if Instant::now() > deadline {
                     return None;
                 }
-                if crashy {
+                if is_miri {
+                    crate::miri::exec_in_miri(&world, prop, &serde_json::to_value(cand).ok()?, scratch)
+                } else if crashy {
                     exec_in_child(&world, prop, &serde_json::to_value(cand).ok()?, scratch, exe)
                 } else {
                     let mut ctx = Ctx::new(prop, tier);
@@ -605,7 +639,8 @@ pub fn cmd_replay(path: &str, json_out: bool) -> i32 {
             std::process::exit(1);
         });
     }
-    match exec_value(&rf.world, &rf.property, Tier::Quick, &rf.case) {
+    let world = rf.world.strip_prefix("miri:").unwrap_or(&rf.world).to_string();
+    match exec_value(&world, &rf.property, Tier::Quick, &rf.case) {
         Err(e) => {
             eprintln!("HARNESS-ERROR: {e}");
             2
@@ -778,7 +813,7 @@ pub fn cmd_check(prop: &str, tier: Tier) -> i32 {
         if seen_classes.contains(&key) {
             continue;
         }
-        let (case, v, execs, orig_len) = if f.world.starts_with("miri:") || f.no_minimise {
+        let (case, v, execs, orig_len) = if f.no_minimise {
             (f.case.clone(), f.violation.clone(), 0, 0)
         } else {
             // a candidate plan may itself not terminate: minimise on a thread and give up on it
@@ -787,7 +822,7 @@ pub fn cmd_check(prop: &str, tier: Tier) -> i32 {
             std::thread::spawn(move || {
                 let _ = tx.send(minimise_found(&f2, &prop2, tier, &scratch2, &exe2));
             });
-            match rx.recv_timeout(std::time::Duration::from_secs(90)) {
+            match rx.recv_timeout(std::time::Duration::from_secs(200)) {
                 Ok(x) => x,
                 Err(_) => (f.case.clone(), f.violation.clone(), 0, 0),
             }
